@@ -3,6 +3,10 @@ package main
 import (
 	"context"
 	"fmt"
+	"strings"
+	"sync"
+
+	"google.golang.org/grpc"
 
 	"google.golang.org/grpc/metadata"
 
@@ -74,6 +78,81 @@ func (e *env) requestMetadata() {
 			r.Distinct(fmt.Sprintf("reqmd|%s|%s", shape, v.name))
 			if got[sideReal] != got[sideWrap] {
 				r.Violation(fmt.Sprintf("C13/%s/request-metadata/%s", shape, v.name), fmt.Sprintf("client context %q: the handler behind the real connection saw %q, the wrapped handler saw %q", v.name, got[sideReal], got[sideWrap]), map[string]any{"shape": shape, "context": v.name})
+			}
+		}
+	}
+}
+
+// fakeSTS is a server transport stream of some OTHER call (the enclosing handler's, when a client is used from
+// inside a handler with that handler's context). Nothing of the inner call may end up in it.
+type fakeSTS struct {
+	mu    sync.Mutex
+	calls []string
+}
+
+func (f *fakeSTS) Method() string { return "/outer.Service/Outer" }
+func (f *fakeSTS) note(what string, md metadata.MD) {
+	f.mu.Lock()
+	f.calls = append(f.calls, what+":"+normMD(md))
+	f.mu.Unlock()
+}
+func (f *fakeSTS) SetHeader(md metadata.MD) error  { f.note("SetHeader", md); return nil }
+func (f *fakeSTS) SendHeader(md metadata.MD) error { f.note("SendHeader", md); return nil }
+func (f *fakeSTS) SetTrailer(md metadata.MD) error { f.note("SetTrailer", md); return nil }
+
+// responseMetadataPlumbing: unary calls whose handler answers with a header and a trailer through its call context.
+// (1) The client's context carries the server transport stream of an enclosing call: header and trailer still reach
+// the inner caller and nothing reaches the enclosing stream. (2) One pair of grpc.Header / grpc.Trailer targets is
+// reused over a sequence of calls of which only some set metadata: after every call the targets hold that call's
+// metadata, as over a real connection (empty when the call set none).
+func (e *env) responseMetadataPlumbing() {
+	r := e.r
+	echoMode.Store(true)
+	defer echoMode.Store(false)
+	sequences := [][]string{{"md+h"}, {"md+h", "md"}, {"md", "md+h", "md"}, {"md+h1", "md+h2", "md"}}
+	for _, nested := range []bool{false, true} {
+		for si, seq := range sequences {
+			got := map[string]string{}
+			for _, side := range []string{sideReal, sideWrap} {
+				base := context.Background()
+				sts := &fakeSTS{}
+				if nested {
+					base = grpc.NewContextWithServerTransportStream(base, sts)
+				}
+				ctx, cancel := context.WithCancel(base)
+				cl := testproto.NewTestApiClient(e.cc(side))
+				var h, t metadata.MD // reused over the whole sequence
+				var sb strings.Builder
+				for _, msg := range seq {
+					var err error
+					panicked, what := vk.Recover(func() {
+						_, err = cl.Unary(ctx, &testproto.UnaryRequest{Msg: msg}, grpc.Header(&h), grpc.Trailer(&t))
+					})
+					switch {
+					case panicked:
+						fmt.Fprintf(&sb, "[%s panic: %s]", msg, what)
+					case err != nil:
+						fmt.Fprintf(&sb, "[%s error: %s]", msg, normErr(err))
+					default:
+						fmt.Fprintf(&sb, "[%s header{%s} trailer{%s}]", msg, normMD(h), normMD(t))
+					}
+				}
+				cancel()
+				sts.mu.Lock()
+				fmt.Fprintf(&sb, " enclosing-stream-calls=%v", sts.calls)
+				sts.mu.Unlock()
+				got[side] = sb.String()
+			}
+			vk.Quiesce()
+			r.Eval(2)
+			r.Count("response-metadata-plumbing-cases", 1)
+			r.Distinct(fmt.Sprintf("respmd|%v|%d", nested, si))
+			if got[sideReal] != got[sideWrap] {
+				cls := "reused-option-targets"
+				if nested {
+					cls = "context-of-an-enclosing-handler"
+				}
+				r.Violation("C13/unary/response-metadata/"+cls, fmt.Sprintf("unary calls %v (client context carries an enclosing call's server transport stream: %v), one pair of grpc.Header/grpc.Trailer targets for the whole sequence:\n  real connection: %s\n  wrapper:         %s", seq, nested, got[sideReal], got[sideWrap]), map[string]any{"nested": nested, "sequence": seq})
 			}
 		}
 	}
